@@ -203,7 +203,9 @@ impl RtpsStatefulWriter {
                     {
                         let request_fragment_number = request_fragment_number as usize;
                         // Either send a DATAFRAG submessages or send a single DATA submessage
-                        if (request_fragment_number) < number_of_fragments
+                        // Fragment numbers on the wire start at 1
+                        if request_fragment_number >= 1
+                            && request_fragment_number <= number_of_fragments
                             && cache_change.kind == ChangeKind::Alive
                         {
                             let writer_id = self.guid.entity_id();
@@ -212,7 +214,7 @@ impl RtpsStatefulWriter {
                                 reader_id,
                                 writer_id,
                                 self.data_max_size_serialized,
-                                request_fragment_number,
+                                request_fragment_number - 1,
                             );
 
                             let info_dst = InfoDestinationSubmessage::new(
